@@ -367,6 +367,9 @@ func (h *hostState) step(st stepSpec) {
 // loop is the host's container runtime.
 func (h *hostState) loop(ctx context.Context) {
 	w, r := h.w, h.w.r
+	// All runtimes are started together; each waits here to be released by the scheduler, so that from the first
+	// logged event on at most one goroutine is runnable.
+	w.s.Park(ctx, "runtime-start", h.name, false)
 	for _, st := range h.script {
 		h.step(st)
 	}
